@@ -162,6 +162,7 @@ func checkC04(c *Ctx) error {
 		}
 	}
 	engineCoverage(c, k.E, "")
+	c.Coverage["bounds"] = map[string]any{"type_constructor_depth": depth, "leaf_types": "int, string, local named, external named", "children_of_func_struct_interface": "leaves", "gates": "corpus families F2, FN, FH, FT, F5, F1 (n=3)", "outside": "deeper types, type parameters other than one generic instance, declarations outside the gated families"}
 	c.Coverage["explanation"] = fmt.Sprintf("(B) path-complete bounded execution of the real createASTTypeExpr on every type of constructor depth <= %d built with the real go/types constructors (basic, local/external named, pointer, slice, array, map, chan x 3 directions, function incl. variadic, struct incl. embedded fields and tags, interface with a method, generic instance): the produced ast.Expr is rendered and compared with a reference spelling of the type (%d paths, %d distinct types). (A)/(C) gates through the CLI: %d generated packages (feature, naming, hard-coded-identifier, second-injector and core families) must type-check and no generated local may shadow a package-level, predeclared or imported name. 'Compiles' as a universal statement is outside the claim.", depth, len(res), len(shapes), compiled)
 	c.Coverage["obligations"] = oblig
 	c.Coverage["evaluations"] = paths + compiled
